@@ -96,6 +96,8 @@ PATHS = [
     "insert_select",  # INSERT INTO t SELECT .. FROM staging
     "ctas",  # CREATE TABLE t AS SELECT .. FROM staging
     "clone",  # CREATE TABLE t CLONE staging
+    "insert_select_cast",  # INSERT INTO t SELECT id, v::<declared type spelling> FROM staging (the spelling inside a cast)
+    "ctas_cast",  # CREATE TABLE t AS SELECT id, v::<declared type spelling> AS v FROM staging (column type given by a cast)
     "wp",  # write_pandas into an existing table
     "wp_dbschema",  # write_pandas(database=, schema=) into a table of another schema
     "wp_subset",  # write_pandas with a subset of the table's columns, in another order
@@ -104,7 +106,7 @@ PATHS = [
 ]
 SQL_PATHS = ("lit", "lit_bs", "pyformat", "qmark")
 LIT_PATHS = ("lit", "lit_bs")
-DERIVED_PATHS = ("insert_select", "ctas", "clone")
+DERIVED_PATHS = ("insert_select", "ctas", "clone", "insert_select_cast", "ctas_cast")
 WP_PATHS = ("wp", "wp_dbschema", "wp_subset", "wp_auto", "wp_opts")
 
 # NULL placements of a cell [v]: none / NULL first / NULL in the middle / NULL last, + "after_identity": the value
